@@ -71,3 +71,13 @@ reg('C10', 'static analysis: must-facts for the barrier guard (wake-up control-d
     'for registration and context writes, exception-containment trace of an awaited failure',
     'For every number of awaited items and completion order: the wake-up site is reachable only under "nothing awaited any more", registrations reach the WAITING '
     'state, a failed awaitable becomes the EXCEPTED state. The unguarded future writes are C06\'s findings.', NOTE)
+
+reg('C11', 'static analysis: error-discipline rule on the CFG of every validate*/validator call site (verdict tested on every path, error branch returns/raises it), '
+    'provenance of the mapping handed to the in-place default filler, read-only shape of the frozen mappings (bases, mutator ownership), must-facts on '
+    'required_override and default evaluation',
+    'For every spec and input: no validation verdict can be dropped, construction raises on an error, the caller\'s dictionary and raw_inputs are never handed to code '
+    'that mutates its argument, Frozendict has no mutator, a default always clears "required". The acceptance function itself is not decided.', NOTE)
+reg('C12', 'static analysis: dominance of every store that can reach the outputs mapping (alias closure through setdefault) by the validation-error test that raises, '
+    'writer ownership of the outputs, provenance of the downgrade state (same result, constant successful=False), must-facts on when spec validation runs',
+    'For every output spec and emission sequence: nothing is written into the outputs before the verdict was examined, nobody else mutates them, listeners are told exactly '
+    'when stored, the downgrade keeps the result and is entered by transition_to. Which values the spec accepts is not decided.', NOTE)
